@@ -425,6 +425,8 @@ func vH_C07_fault() {
 		vCover("done")
 		return
 	}
+	// only FlushRevert may truncate, failed call or not
+	vAssert("truncate-outside-flushrevert", len(f.truncs) == 0)
 	// the failed call changed nothing that is visible
 	vCheckColl("after-fault", c, before)
 	// durable state undamaged
